@@ -49,6 +49,14 @@ def run(req):
         facts = req.get("facts", "")
         a, b = models(req["program"], facts), models(new, facts)
         return {"reproduced": a != b, "optimised": new, "answer_sets_source": a[:6], "answer_sets_result": b[:6]}
+    if kind == "ungroundable":
+        new = optimise(req["program"], req.get("traits", []), req.get("inputs", "auto"), req.get("outputs", "auto"))
+        models(req["program"], req.get("facts", ""))  # the source must ground
+        try:
+            models(new, req.get("facts", ""))
+        except RuntimeError as e:
+            return {"reproduced": True, "optimised": new, "error": repr(e)}
+        return {"reproduced": False, "optimised": new}
     if kind == "exception":
         try:
             new = optimise(req["program"], req.get("traits", []), req.get("inputs", "auto"), req.get("outputs", "auto"))
